@@ -39,6 +39,12 @@ CHECKS = {
  "C18": ("exploration", "complete pass over corpus Sierra + compiler-generated Sierra and a programmatically enumerated format lattice, every program through every serialization on the real code",
          "Each program is printed and re-parsed (fixpoint after one round, isomorphism), serialized to felts via ContractClass and back, through VersionedProgram JSON and back, and each variant is compiled to CASM and compared byte for byte. The lattice enumerates every GenericArg kind x boundary values x harvested real debug-name spellings x statement shapes.",
          "Program equality is the crate's id-based equality; lattice programs are not valid Sierra and only exercise serialization.", "DESIGN.md §3 C18"),
+ "C19": ("exploration", "complete pass over every contract class in the repository, every contract compiled in-process, and an enumerated family of generated contracts (entry-point subsets x constructor x l1_handler), each x hint/size-limit configurations, with structural invariants checked on the real CasmContractClass",
+         "For each class the CASM compiled from the published felts is compared with a direct compile of the extracted Sierra and of the compiler's own in-memory Sierra; entry offsets, builtin lists (against an independent protocol-order table), selector order, canonical words, hint offsets, segment lengths, hash/JSON stability and exact size-limit behaviour are checked.",
+         "Contracts are the corpus + a 6-function menu family; syscall semantics are not executed.", "DESIGN.md §3 C19"),
+ "C20": ("exploration", "differential compilation of every corpus dependent against corelib-from-source and corelib-from-cache in paired incremental databases",
+         "Every dependent of the enumerated set (corpus snippets, examples, bug samples, seeds and deliberately ill-typed variants) is compiled in two databases that differ only in cache_file of the core crate; diagnostics text and Sierra text must be byte-identical. No expected values are hand-written.",
+         "Cached crate is the corelib only; cache blob generated in-process with identical settings.", "DESIGN.md §3 C20"),
 }
 
 NOT_YET = {
